@@ -107,9 +107,9 @@ def execute(G, cfg, steps, oracles, on_request=None, on_failed_send=None):
                     cl.send(op[:-1], it)
                 else:
                     cl.send(op, call[1] if len(call) > 1 else None)
-            except G.SnmpEncodeError:
+            except (G.SnmpError, ValueError, RuntimeError, OverflowError) as e:
                 if link.recv_all():
-                    raise core.Failure("encode-error-but-sent", "%r raised SnmpEncodeError yet a datagram was sent" % (call,))
+                    raise core.Failure("encode-error-but-sent", "%r raised %r yet a datagram was sent" % (call, e))
                 # whether a request of this size must fit is C17's question, not this property's
                 info["kinds"].add("encode_error")
                 if on_failed_send:
